@@ -190,6 +190,11 @@ def main(argv=None):
 
     print('%s tier=%s seed=%d shards=%d evaluations=%d distinct_nontrivial=%d wall=%.1fs verdict=%s' % (
         prop, args.tier, seed, len(results), agg['evaluations'], len(agg['nontrivial']), wall, verdict))
+    if os.environ.get('MTV_PRINT_COUNTERS'):
+        import re
+        for k, v in sorted(agg['counters'].items()):
+            if re.search(os.environ['MTV_PRINT_COUNTERS'], k):
+                print('  counter %s=%d' % (k, v))
     for k in sorted(seen_known):
         print('KNOWN-FINDING: property=%s %s %s (seen %d times)' % (prop, k, known_keys[k]['what'], agg['viol_counts'].get(k, 0)))
     for k in known_keys:
